@@ -124,6 +124,8 @@ def unit_long_text(a):
             texts.append("Feature: f\n Scenario Outline: s\n  Given <a>\n @first\n" + run + " Examples:\n  | a |\n  | 1 |\n")
             texts.append("Feature: f\n Background:\n  Given x\n @first\n" + run + " Rule: r\n  Scenario: t\n")
     sweep(stats, [{"sub": "text", "text": t, "label": "long-run"} for t in texts], check_text)
+    from .c14 import quoted_cases
+    sweep(stats, quoted_cases(), check_text)
     return stats
 
 
